@@ -257,12 +257,14 @@ func c14History(c *ctx, ops []c14Op, probes []string, how string) {
 				!used1 && !used2 && !selfInv && c14WellFormed(before) == "" {
 				if err != nil {
 					key, detail = "two-way-rejected", fmt.Sprintf("step %d %s: %v", i, o, err)
-				} else {
-					a, okA := s.GetType(r.FromType).Rels[r.FromName]
-					b, okB := s.GetType(r.ToType).Rels[r.ToName]
-					if !okA || !okB || a != r || b != r.Invert() {
-						key, detail = "two-way-sides-wrong", fmt.Sprintf("step %d %s: from side %s, to side %s", i, o, descRel(a), descRel(b))
-					}
+				}
+			}
+			// whenever the call reports success each side holds the relationship and its inverse
+			if err == nil && !selfInv && key == "" {
+				a, okA := s.GetType(r.FromType).Rels[r.FromName]
+				b, okB := s.GetType(r.ToType).Rels[r.ToName]
+				if !okA || !okB || a != r || b != r.Invert() {
+					key, detail = "two-way-sides-wrong", fmt.Sprintf("step %d %s returned nil: from side %s, to side %s", i, o, descRel(a), descRel(b))
 				}
 			}
 		}
